@@ -476,6 +476,68 @@ def verify_has_reply_waiting():
         raise Unclassified('%s: Client.has_reply_waiting no longer has the shape wait_read(fd, <const<=1s>, ...)' % fname)
 
 
+# ---------------------------------------------------------------- how the timeout attributes are configured
+# attribute read by a scope -> (texpr, class whose __init__ assigns it)
+ATTR_OF_TEXPR = {'TConnect': 'connect_timeout', 'TCommand': 'command_timeout', 'TData': 'data_timeout', 'TSingle': 'timeout'}
+ATTR_OWNER = {      # scanned class -> class (in the same file) whose __init__ assigns the timeout attributes
+    'SmtpRelayClient': 'SmtpRelayClient', 'LmtpRelayClient': 'SmtpRelayClient', 'Server': 'Server',
+    'PipeRelay': 'PipeRelay', 'MaildropRelay': 'PipeRelay', 'DovecotLdaRelay': 'PipeRelay',
+    'HttpRelayClient': 'HttpRelay',          # the scope reads self.relay.timeout
+}
+
+
+def attr_chain(init, attr, fname, cls):
+    """`self.<attr> = p` -> [p];  `self.<attr> = p or q [or r]` -> [p, q, r] (constructor parameters).
+    Anything else: fail closed."""
+    params = set(a.arg for a in init.args.args + init.args.kwonlyargs)
+    found = None
+    for node in ast.walk(init):
+        if isinstance(node, ast.Assign) and len(node.targets) == 1 and dotted(node.targets[0]) == 'self.' + attr:
+            if found is not None:
+                raise Unclassified('%s: %s.__init__ assigns self.%s more than once' % (fname, cls, attr))
+            found = node.value
+    if found is None:
+        raise Unclassified('%s: %s.__init__ does not assign self.%s' % (fname, cls, attr))
+    names = found.values if isinstance(found, ast.BoolOp) and isinstance(found.op, ast.Or) else [found]
+    chain = []
+    for n in names:
+        if not (isinstance(n, ast.Name) and n.id in params):
+            raise Unclassified('%s:%d: %s.__init__: self.%s = %s is not a constructor parameter or an `a or b` chain of them'
+                               % (fname, found.lineno, cls, attr, ast.unparse(found)))
+        chain.append(n.id)
+    return chain
+
+
+def check_passthrough(tree, sub, fname):
+    """a subclass __init__ must hand `timeout` on to super().__init__ unchanged"""
+    init = class_methods(tree, sub, fname).get('__init__')
+    if init is None:
+        return
+    for node in ast.walk(init):
+        if isinstance(node, ast.Call) and isinstance(node.func, ast.Attribute) and node.func.attr == '__init__' \
+                and isinstance(node.func.value, ast.Call) and dotted(node.func.value.func) == 'super':
+            names = [dotted(a) for a in node.args] + [dotted(k.value) for k in node.keywords]
+            if 'timeout' in names:
+                return
+    raise Unclassified('%s: %s.__init__ does not pass `timeout` on to its base class' % (fname, sub))
+
+
+def build_attr_defaults(trees, sites):
+    out = []
+    for cls, fname, base in CLASSES:
+        used = sorted(set(s['scope']['expr'] for s in sites if s['cls'] == cls and s['scope'] is not None
+                          and s['scope']['expr'] in ATTR_OF_TEXPR))
+        owner = ATTR_OWNER[cls]
+        init = class_methods(trees[fname], owner, fname).get('__init__')
+        if init is None:
+            raise Unclassified('%s: %s has no __init__' % (fname, owner))
+        if cls in ('MaildropRelay', 'DovecotLdaRelay'):
+            check_passthrough(trees[fname], cls, fname)
+        for e in used:
+            out.append(dict(cls=cls, expr=e, attr=ATTR_OF_TEXPR[e], chain=attr_chain(init, ATTR_OF_TEXPR[e], fname, owner)))
+    return out
+
+
 def build_table():
     verify_has_reply_waiting()
     trees = {}
@@ -518,6 +580,7 @@ def build_table():
             stats['methods'] += 1
             stats['pure_calls'] += sc.pure
             todo |= set((f, x) for x in sc.used_modfuncs)
+    stats['attr_defaults'] = build_attr_defaults(trees, sites)
     return sites, stats
 
 
@@ -602,6 +665,7 @@ def emit_coq(sites, stats, path):
     lines = []
     lines.append('(* GENERATED by tools/timeouts_ast.py from %s -- do not edit.' % '$VERIF_REPO (default /repo)')
     lines.append('   %d methods scanned, %d sites, %d calls classified as pure. *)' % (stats['methods'], len(sites), stats['pure_calls']))
+    stats = dict(stats)
     lines.append('From Coq Require Import List String NArith.')
     lines.append('From SV Require Import model.Timeouts.')
     lines.append('Import ListNotations.')
@@ -612,6 +676,11 @@ def emit_coq(sites, stats, path):
         body.append('  mk_site %s %s %s %s %s %d%%N' % (coq_string(s['cls']), coq_string(s['method']), coq_string(s['callee']),
                                                        s['kind'], coq_scope(s['scope']), s['line']))
     lines.append(';\n'.join(body))
+    lines.append('].')
+    lines.append('(* how each timeout attribute read by a scope is derived from the constructor parameters in __init__ *)')
+    lines.append('Definition attr_defaults : list (string * texpr * list string) := [')
+    lines.append(';\n'.join('  (%s, %s, [%s])' % (coq_string(d['cls']), d['expr'], '; '.join(coq_string(c) for c in d['chain']))
+                            for d in stats['attr_defaults']))
     lines.append('].')
     lines.append('(* sites excused by a `known` entry c14:unguarded:<method>:<callee> of known_findings.json *)')
     lines.append('Definition known_unguarded : list (string * string) := [')
